@@ -647,6 +647,7 @@ def fix_items(x):
 
 
 GLOBAL_LINE_RE = re.compile(r"^(?:(?:Servo|LiquidCrystal|LiquidCrystal_I2C)[ \t]|(?:const int|int|bool) __redu_lcd\d*_(?:cols|rows|brightness|backlight_state)_)")
+LIB_INCLUDE_RE = re.compile(r"^#include <(?:Servo\.h|LiquidCrystal\.h|Wire\.h|LiquidCrystal_I2C\.h)>$")
 SERVO_INIT_RE = re.compile(r"^\s*__servo_\w+\.(?:attach|writeMicroseconds)\(")
 
 
@@ -712,6 +713,7 @@ def read_objects(cpp, items):
                 cols = m.group(0)
         return [obj, cols]
     return {"globals": [l for l in head if GLOBAL_LINE_RE.match(l)],
+            "head": [l for l in head if GLOBAL_LINE_RE.match(l) or LIB_INCLUDE_RE.match(l)],
             "setup": [l for l in setup if relevant(l)],
             "loop": [receiver(l) for l in loop if ident.search(l)],
             "functions": [receiver(l) for l in head if l.startswith(" ") and ident.search(l)],
@@ -750,6 +752,11 @@ def object_correspondence(ctx, c, r, m, incs, dist):
     if real["setup"][:len(init)] != init:
         ok = False
         ctx.disagree("initialisation lines of the library objects in setup(): model vs emit", case_rep, init, real["setup"][:len(init) + 2])
+    sketch = [C.wstr(x) for x in m[12]]
+    real_sketch = real["head"] + ["void setup() {"] + real["setup"][:len(init)]
+    if sketch != real_sketch:
+        ok = False
+        ctx.disagree("order of the library lines of the sketch (#include lines, object definitions, void setup() {, initialisation): model vs emit", case_rep, sketch, real_sketch)
     real_rs = [real["receiver"](l) for l in real["setup"][len(init):]]
     if not same_receivers(rs, real_rs):
         ok = False
